@@ -15,7 +15,7 @@ RULE = ("dec stream (chunked decode with carry-over vs the Lean model) + aes str
         "AESDecompressor with a recording cipher vs the Lean model, all chunkings of short streams) + exploration: member "
         "lists (0..6 members, names per the quantifier, lengths around 0/1/16/32/block multiples, random/repetitive/x86 "
         "texture) x every supported documented chain (+/-7zAES) x header raw/encoded/encrypted x target path/BytesIO/"
-        "buffered file/multi-volume x I/O block size {17,64,4096,default} x extraction chunk {1,7,4096,default}; each case "
+        "buffered file/multi-volume (path targets created with mode 'w' and with exclusive mode 'x') x I/O block size {17,64,4096,default} x extraction chunk {1,7,4096,default}; each case "
         "written and read back in a child process; names and bytes compared. Non-trivial = >=2 members or a member longer "
         "than one block; distinct by the full configuration.")
 ASSUMPTIONS = ["codec libraries satisfy decode(encode x) = x under any chunking (parameter of the model)", "multivolumefile and buffered file objects are runtime"]
@@ -50,8 +50,10 @@ def _case(job):
         import multivolumefile
         mv = multivolumefile.open(path, mode="wb", volume=target_volume(target))
         tgt = mv
+    # exclusive creation ("x") is a write mode of the API like "w": used for path targets of every second case
+    wmode = "x" if (target == "path" and len(members) % 2 == 1) else "w"
     try:
-        with py7zr.SevenZipFile(tgt, "w", **kw) as z:
+        with py7zr.SevenZipFile(tgt, wmode, **kw) as z:
             if header == "raw":
                 z.set_encoded_header_mode(False)
             for i, (name, data) in enumerate(members):
